@@ -2,13 +2,13 @@ SPECIFICATION Spec
 CONSTANTS
   N = 3
   Refs = {"a", "b"}
-  MaxDepth = 5
+  MaxDepth = 6
   MaxPacks = 2
   WithCopies = TRUE
   WithIdx = FALSE
   MidxChecksPack = TRUE
   CgChecksStore = TRUE
-  CgWriterCloses = TRUE
+  CgWriterCloses = FALSE
   BitmapChecksum = TRUE
   BitmapClosedPack = TRUE
   BitmapExcludeExact = TRUE
@@ -16,7 +16,4 @@ CONSTANTS
   DeleteDropsPacked = TRUE
 INVARIANT TypeOK
 INVARIANT Transparent
-INVARIANT Exact
-INVARIANT RefsTransparent
-INVARIANT StaleRejected
 CHECK_DEADLOCK FALSE
